@@ -159,6 +159,11 @@ func Epoch() {}
 // AllocBound tells the engine up to which length symbolic allocations are case-split.
 func AllocBound(n int) {}
 
+// CompressPolicy selects how the engine's compressor stubs pick the compressed length of a block:
+// 0 = every length the library contract allows (forks), 1 = shortest (highest ratio), 2 = longest. Natively a no-op:
+// the real compressor decides.
+func CompressPolicy(p int) {}
+
 // Report renders the outcome of a native run.
 func Report() string {
 	var sb strings.Builder
